@@ -109,6 +109,8 @@ impl RdfStore {
     pub fn insert(&self, triple: Triple) -> bool {
         let triple = Arc::new(triple);
 
+        #[cfg(grafeodb_grafeo_verif)]
+        grafeo_common::verif::yield_point("rdf.insert.check");
         // Check if already exists
         {
             let triples = self.triples.read();
@@ -121,6 +123,8 @@ impl RdfStore {
         // indexes are updated as well: a concurrent remove of the same triple
         // running between the two would leave the triple in the indexes only
         // (lock order: triples, subject, predicate, object index).
+        #[cfg(grafeodb_grafeo_verif)]
+        grafeo_common::verif::yield_point("rdf.insert.write");
         let mut triples = self.triples.write();
         if !triples.insert(Arc::clone(&triple)) {
             return false;
@@ -162,6 +166,8 @@ impl RdfStore {
     pub fn remove(&self, triple: &Triple) -> bool {
         // Remove from primary storage; the write guard is held until the
         // indexes are updated as well (see insert)
+        #[cfg(grafeodb_grafeo_verif)]
+        grafeo_common::verif::yield_point("rdf.remove.write");
         let mut triples = self.triples.write();
         if !triples.remove(triple) {
             return false;
